@@ -50,6 +50,7 @@ COMPONENT_SETS = {
     "ada::url_pattern_helpers::canonicalize_password": {"USERINFO"},
     "ada::url_pattern_helpers::canonicalize_search": {"QUERY"},   # URLPattern: dummy URL is non-special
     "ada::url_pattern_helpers::canonicalize_hash": {"FRAGMENT"},
+    "ada::url_pattern_helpers::canonicalize_opaque_pathname": {"C0_CONTROL"},   # opaque path state (F13 fix)
 }
 # functions that MUST reference their set (dropping the encode call altogether)
 MUST_REFERENCE = dict(COMPONENT_SETS)
